@@ -61,10 +61,11 @@ PROGRAMS = [
     # program with a syntax error, whose report names the file AND the position however long the name is
     ('\x1b[1mbold\x1b[0m', 'escape(sequence).\n', 'ok'), ('n' * 236, 'long(name).\n', 'ok'), ('e' * 236, 'foo(a).\nbar(b :- c.\n', 'syntax'),
     ('f' * 120, "foo(a).\nbar('unterminated %s).\n" % ('x' * 300), 'syntax'),
+    ('hash-in-atoms', "colour(sky, '#87ceeb').\nnote('a # b', 'c').\n", 'ok'),
     ('open-ended', 'wet(X) :- rain(X),\n', 'syntax'),
     ('multiline-clause', "longer(\n  'first\nsecond',\n  X\n) :-\n  true,\n  X = 'x'.\n", 'ok'),
 ]
-QUICK = ['facts', 'newlines', 'unicode', 'syntax-error', 'control', 'linebreaks', 'too-large', 'directives-discontiguous', 'control-characters', 'large-non-ascii', 'lexical-error', 'deep-parentheses', 'very-deep-parentheses', 'report[12]', 'what?', '100%', 'rate%done%s', '{0}{name}', '$HOME', '~', 'back\\slash', "it's", 'two words;x', '\x1b[1mbold\x1b[0m', 'n' * 236, 'e' * 236, 'f' * 120]
+QUICK = ['facts', 'newlines', 'unicode', 'syntax-error', 'control', 'linebreaks', 'too-large', 'directives-discontiguous', 'control-characters', 'large-non-ascii', 'lexical-error', 'deep-parentheses', 'very-deep-parentheses', 'report[12]', 'what?', '100%', 'rate%done%s', '{0}{name}', '$HOME', '~', 'back\\slash', "it's", 'two words;x', '\x1b[1mbold\x1b[0m', 'n' * 236, 'e' * 236, 'f' * 120, 'hash-in-atoms']
 FLAGS = ['-d', '--debug-parser', '--debug-generator', '--debug-filename']
 
 
@@ -149,6 +150,28 @@ def configurations(progs):
                         yield name, flags, out, inp, multi
 
 
+def sibling(text):
+    """the text with ONE character changed: the last letter or digit behind the last # (if a # is followed by one
+    on its line), else the last letter or digit of the text"""
+    i = text.rfind('#')
+    pos = None
+    if i >= 0:
+        j = i + 1
+        while j < len(text) and text[j] not in '\n\r':
+            if text[j].isalnum() and text[j].isascii():
+                pos = j
+            j += 1
+    if pos is None:
+        for j in range(len(text) - 1, -1, -1):
+            if text[j].isalnum() and text[j].isascii():
+                pos = j
+                break
+    if pos is None:
+        return text + 'extra(clause).\n'
+    c = text[pos]
+    return text[:pos] + ('b' if c != 'b' else 'c') + text[pos + 1:]
+
+
 def check_config(tmp, table, cfg, cache):
     """-> (status, sig, detail, outcome)"""
     name, flags, out, inp, multi = cfg
@@ -172,8 +195,16 @@ def check_config(tmp, table, cfg, cache):
         outpath = os.path.join(tmp, 'out_%d.py' % os.getpid())
         # the output file already exists and holds something longer than any output (an earlier,
         # bigger compilation to the same path): -o replaces the file, it does not write into it
-        with open(outpath, 'w') as f:
-            f.write('# output of an earlier compilation\nstale_name\n' * 3000)
+        stale = '# output of an earlier compilation\nstale_name\n' * 3000
+        if not flags[3] and multi == 'one':
+            # ... or (every second flag set) the output of an EARLIER VERSION of the same source, which differs from
+            # it in one character - behind a # inside a quoted atom if there is one: the file is rewritten all the same
+            try:
+                stale = impl.compile_text(sibling(text))
+            except Exception:  # noqa: BLE001
+                pass
+        with open(outpath, 'w', encoding='utf8', newline='') as f:
+            f.write(stale)
         args += ['-o', outpath]
     stdin_text = None
     paths = []
